@@ -16,7 +16,9 @@ EXPLANATION = (
     "argument of the one mailbox channel is exactly the mailbox_capacity parameter of spawn_with_mailbox_capacity (provenance: no "
     "arithmetic, max or constant), the call is dominated by the true edge of `capacity > 0` whose other edge panics, spawn passes "
     "CONFIGURED.get().copied().unwrap_or(DEFAULT) unchanged with DEFAULT evaluating to 32, set_default_mailbox_capacity is decided by "
-    "its full decision table (0 => Err without writing; otherwise OnceLock::set(size) decides), the OnceLock is written nowhere else, "
+    "its full decision table (0 => Err without writing; otherwise OnceLock::set(size) decides), the OnceLock is written nowhere else "
+    "(or, equivalently, the default lives in an atomic whose initial value is a reserved marker that the validator rejects: claimed "
+    "only by a strong compare_exchange(marker, size), never by swap/store/fetch_*, read by a single load), "
     "every enqueue uses the waiting send/blocking_send on that channel (stop marker included) and no unbounded channel exists.")
 
 DEFAULT_CAPACITY = 32
